@@ -122,6 +122,28 @@ func rvOf(a Value) *smt.Term {
 // wrapInt: the value an integer cell of kind k holds after SetInt(x), as int64.
 func (x *Exec) wrapInt(v *smt.Term, k *smt.Term, signed bool) *smt.Term {
 	B := x.B
+	// Division in 64 bits of operands that are extensions of w-bit values, truncated to w bits, is
+	// the w-bit division (including MinInt / -1, which wraps in both). Bit-blasting a 64-bit divider
+	// does not terminate in the time available, so the instance for this operation is assumed
+	// (listed in trusted_base; the same fact at 8/16 bits is proved by the solvers in the self-test).
+	switch v.Op {
+	case "bvsdiv", "bvsrem", "bvudiv", "bvurem":
+		sg := v.Op == "bvsdiv" || v.Op == "bvsrem"
+		if v.S.W == 64 && sg == signed {
+			p, q := v.Args[0], v.Args[1]
+			x.note("math lemma (assumed): w-bit integer division/remainder equals the truncation of the 64-bit one on sign/zero-extended operands")
+			for _, w := range []int{8, 16, 32} {
+				a, b := B.Extract(w-1, 0, p), B.Extract(w-1, 0, q)
+				var pe, qe *smt.Term
+				if signed {
+					pe, qe = B.SignExt(64-w, a), B.SignExt(64-w, b)
+				} else {
+					pe, qe = B.ZeroExt(64-w, a), B.ZeroExt(64-w, b)
+				}
+				x.assumeGlobal(B.Implies(B.And(B.Eq(p, pe), B.Eq(q, qe)), B.Eq(B.Extract(w-1, 0, v), B.BVBin(v.Op, a, b))))
+			}
+		}
+	}
 	ext := func(w int) *smt.Term {
 		if signed {
 			return B.SignExt(64-w, B.Extract(w-1, 0, v))
@@ -136,8 +158,25 @@ func (x *Exec) wrapInt(v *smt.Term, k *smt.Term, signed bool) *smt.Term {
 }
 
 func (x *Exec) wrapFloat(v *smt.Term, k *smt.Term) *smt.Term {
+	x.doubleRoundLemma(v)
+	return x.B.Ite(x.B.Eq(k, x.B.BVC(kFloat32, 64)), x.B.FPConv(x.B.FPConv(v, smt.FP32), smt.FP64), v)
+}
+
+func (x *Exec) doubleRoundLemma(v *smt.Term) {
 	B := x.B
-	return B.Ite(B.Eq(k, B.BVC(kFloat32, 64)), B.FPConv(B.FPConv(v, smt.FP32), smt.FP64), v)
+	// Double rounding binary64 -> binary32 is innocuous for + - * / (Figueroa 1995): if both operands
+	// are exact widenings of binary32 values a, b then float32(a64 op b64) == a op32 b.  The solvers
+	// need minutes to prove it; the instance for this operation is assumed (listed in trusted_base).
+	switch v.Op {
+	case "fp.add", "fp.sub", "fp.mul", "fp.div":
+		if v.S == smt.FP64 && len(v.Args) == 2 {
+			p, q := v.Args[0], v.Args[1]
+			a, b := B.FPConv(p, smt.FP32), B.FPConv(q, smt.FP32)
+			x.note("math lemma (assumed): double rounding binary64->binary32 is innocuous for + - * / on operands that are binary32 values (Figueroa 1995)")
+			x.assumeGlobal(B.Implies(B.And(B.Eq(p, B.FPConv(a, smt.FP64)), B.Eq(q, B.FPConv(b, smt.FP64))),
+				B.Eq(B.FPConv(v, smt.FP32), B.FPBin(v.Op, a, b))))
+		}
+	}
 }
 
 func (x *Exec) rcell(st *State, cat string, s *smt.Sort) *smt.Term {
@@ -186,7 +225,10 @@ func (x *Exec) registerReflect() {
 			case "complex":
 				c := args[1].(*Struct)
 				is64 := B.Eq(k, B.BVC(kComplex64, 64))
-				w := func(t *smt.Term) *smt.Term { return B.Ite(is64, B.FPConv(B.FPConv(t, smt.FP32), smt.FP64), t) }
+				w := func(t *smt.Term) *smt.Term {
+					x.doubleRoundLemma(t)
+					return B.Ite(is64, B.FPConv(B.FPConv(t, smt.FP32), smt.FP64), t)
+				}
 				x.heapSet(st, "rcell#cre", B.Store(x.rcell(st, "cre", smt.FP64), v, w(c.Fields[0].(*smt.Term))))
 				x.heapSet(st, "rcell#cim", B.Store(x.rcell(st, "cim", smt.FP64), v, w(c.Fields[1].(*smt.Term))))
 			case "str":
